@@ -19,7 +19,7 @@ def obligations(tier):
                   funcs=(F + "SpecialEvent.tick_is_during_event", F + "SpecialEvent.tick_is_after_event")))
     obs.append(Ob("C05.cursor_threading.loop", "CH", "harness.h_instrument", "grouping_loop", 120, {"VF_ND": 4},
                   funcs=(F + "InstrumentTrack._build_note_events_from_data",), bounds="4 data, recorder from_parsed_data"))
-    obs += _ned("C05.note_event", tier, (F + "NoteEvent.from_parsed_data",), quick=("0,1", "6,1"))
+    obs += _ned("C05.note_event", tier, (F + "NoteEvent.from_parsed_data",), quick=("0,1", "6,1", "7,6"))
     ng = [(2, 2)] if tier == "quick" else [(2, 2), (3, 2), (2, 3)]
     for (n, p) in ng:
         obs.append(Ob(f"C05.integrated.N{n}P{p}", "CH", "harness.h_integrated", "star_power_integrated", 600,
